@@ -4,7 +4,10 @@ import (
 	"bytes"
 	"context"
 	"encoding/binary"
+	"errors"
 	"fmt"
+	"github.com/jeroenrinzema/psql-wire/codes"
+	psqlerr "github.com/jeroenrinzema/psql-wire/errors"
 	"io"
 	"runtime"
 	"strings"
@@ -45,6 +48,7 @@ func c04Parse(w *c04World) wire.ParseFn {
 	}
 	inner := w.rec.ParseFn()
 	static := []oid.Oid{0, oid.T_text, 0} // one list per server, shared by all of its connections
+	sentinel := psqlerr.WithDetail(psqlerr.WithHint(psqlerr.WithCode(errors.New("quota exceeded"), codes.Code("53400")), "free some space"), "contact your administrator")
 	copyCols := wire.Columns{{Name: "i", Oid: oid.T_int4}, {Name: "t", Oid: oid.T_text}}
 	return func(ctx context.Context, q string) (wire.PreparedStatements, error) {
 		w.ev("parse %q", q)
@@ -93,6 +97,16 @@ func c04Parse(w *c04World) wire.ParseFn {
 				}
 				return fmt.Errorf("runaway")
 			}, wire.WithColumns(copyCols))), nil
+		case strings.HasPrefix(q, "sentinel"):
+			// an application-wide error value (one per server) that handlers return as it is or refine with a
+			// detail of their own: refining it for one connection must not change what another one reports
+			return wire.Prepared(wire.NewStatement(func(ctx context.Context, dw wire.DataWriter, params []wire.Parameter) error {
+				w.ev("sentinel stmt %q", q)
+				if who := strings.TrimPrefix(q, "sentinel"); who != "" {
+					return psqlerr.WithDetail(sentinel, "refined for"+who)
+				}
+				return sentinel
+			})), nil
 		case strings.HasPrefix(q, "static"):
 			// a handler that serves a static catalogue: ONE declared parameter list shared by every connection
 			return wire.Prepared(wire.NewStatement(func(ctx context.Context, dw wire.DataWriter, params []wire.Parameter) error {
@@ -202,6 +216,13 @@ func c04Sessions() []c04Session {
 	for k := 1; k <= 2*len(frame); k++ {
 		out = append(out, c04Session{Name: fmt.Sprintf("oversized by %d then a payload of framed queries", k), NoPrefix: true,
 			Segs: [][]byte{pgproto.Startup("user", "u"), pgproto.Msg('Q', make([]byte, c04Limit+k)), pgproto.Msg('d', payload[:8000]), pgproto.Msg('d', payload[:8000]), pgproto.Msg('d', payload[:8000]), pgproto.Query(progRows)}})
+	}
+	// the same while the session discards until Sync: the oversized body is still skipped in full
+	for _, k := range []int{1, 7, 13, 24} {
+		out = append(out, c04Session{Name: fmt.Sprintf("while discarding: oversized by %d then a payload of framed queries", k), NoPrefix: true,
+			Segs: [][]byte{pgproto.Startup("user", "u"), pgproto.Parse("", "#perr"),
+				// (the body BEGINS with a framed Sync and framed queries: read as messages they would end the discarding)
+				pgproto.Msg('B', append(pgproto.Cat(pgproto.Sync(), payload[:4000]), make([]byte, c04Limit+k-4000-5)...)), pgproto.Msg('d', payload[:8000]), pgproto.Sync(), pgproto.Query(progRows)}})
 	}
 	// Parse messages declaring k parameter types for statements with fewer / as many / more parameters
 	for k := 0; k <= 4; k++ {
@@ -955,6 +976,21 @@ func c04RawLen(tier string) int {
 }
 
 func c04Enumerate(tier string, emit explore.Emit) {
+	// the configured limit bounds what a client can make the server buffer on an upgraded (TLS) connection too:
+	// C11's sized sessions (Query / Bind bodies around the limit, differential against the plaintext session)
+	for _, c := range c11SizedCases([]int{1024, 8192}) {
+		c := c
+		emit(explore.Case{Family: "whole-session", Size: 1, Desc: func() any { return map[string]any{"session": "over TLS: " + c.String()} },
+			Run: func() explore.Result {
+				r := c11Run(c)
+				r.Outcome = "whole-session"
+				for i := range r.Violations {
+					r.Violations[i].Clause = "memory-balloon"
+					r.Violations[i].Detail = "the message limit is not what it is on a plaintext connection: " + r.Violations[i].Detail
+				}
+				return r
+			}})
+	}
 	sessions := c04Sessions()
 	for _, s := range sessions {
 		s := s
